@@ -41,8 +41,14 @@ def atom(rng, aliases, maliases):
         return f'{v} = {al}.{c}'
     if k < 0.64:
         return f'{al}.{c} {rng.choice([">", "<", "!=", ">=", "like"])} {v}'
-    if k < 0.70:
+    if k < 0.67:
         return f'{al}.{c} between 0 and 2'
+    if k < 0.70:
+        # every operand position of a comparison can hold something that is not a constant: a column of this / another table / the model
+        o = rng.choice(aliases + maliases)
+        oc = f'{o}.{rng.choice(COLS)}'
+        return rng.choice([f'{al}.{c} between 0 and {oc}', f'{al}.{c} between {oc} and 2', f'{al}.{c} between {oc} and {oc}',
+                           f'1 between {al}.{c} and 2', f'{al}.{c} in (1, {oc})', f'{al}.{c} = {oc} + 1', f'{al}.{c} between 0 and abs(2)'])
     if k < 0.77 and len(aliases) > 1:
         b = rng.choice([x for x in aliases if x != al] or aliases)
         return f'{al}.{c} {rng.choice(["=", "=", ">"])} {b}.{rng.choice(COLS)}'
@@ -356,6 +362,22 @@ class Tr:
         raise Unsupported(f'opaque node with comparisons inside: {type(node).__name__}')
 
 
+class ForeignInFetch(Exception):
+    pass
+
+
+def identifiers_in(node):
+    from mindsdb_sql.parser.ast import Identifier
+    from mindsdb_sql.planner.utils import query_traversal
+    out = []
+
+    def cb(x, **kw):
+        if isinstance(x, Identifier):
+            out.append(x)
+    query_traversal(copy.deepcopy(node), cb)
+    return out
+
+
 def conjuncts(node):
     from mindsdb_sql.parser.ast import BinaryOperation
     if node is None:
@@ -427,6 +449,12 @@ def observe(sql, cat_kw, I, require_model=True):
                 t2 = Tr({(f'ref{ref}',): ref}, I, isnull_as_cmp=True)
                 kk = t2.classify(c2)
                 if kk[0] != 'cmp':
+                    # not a column-with-constants comparison: the model has nothing to say, the property text still does --
+                    # a pushed filter "mentions only that table"
+                    own = {tuple(x.lower() for x in r.parts), (r.parts[-1].lower(),)} | ({tuple(x.lower() for x in r.alias.parts)} if r.alias is not None else set())
+                    foreign = [i_.to_string() for i_ in identifiers_in(c) if len(i_.parts) >= 2 and tuple(x.lower() for x in i_.parts[:-1]) not in own]
+                    if foreign:
+                        raise ForeignInFetch(f'the fetch of {r.to_string()} is filtered by `{c.to_string()}`, which mentions {", ".join(foreign)}')
                     raise Unsupported(f'pushed filter of unexpected shape: {c.to_string()}')
                 impl.append(t2.cmp_term(kk[1], kk[2], kk[3]))
             ont = 'None' if ons[k] is None else f'(Some ({ons[k][0]}, {ons[k][1]}))'
@@ -572,6 +600,11 @@ def run(tier, seed, replay=None):
         except Unsupported as e:
             stats['unsupported'] += 1
             errors.setdefault('unsupported: ' + str(e), sql)
+            continue
+        except ForeignInFetch as e:
+            stats['foreign_in_fetch'] = stats.get('foreign_in_fetch', 0) + 1
+            if stats['foreign_in_fetch'] <= 2:
+                R.violation({'sql': sql, 'catalog': cname, 'what': 'a filter pushed into the fetch of a table mentions another table or a model: ' + str(e)})
             continue
         except Exception as e:
             stats['plan_error'] += 1
